@@ -18,7 +18,8 @@ RULE = (
     "unlisted labels) and an injective assignment (time, seg id) -> node id in one of the modes "
     "identity / permutation of the label values (cycles) / ids drawn from the label pool "
     "(collisions) / fresh, optionally containing id 0. Two entry points: relabel_segmentation(...) "
-    "on numpy and dask input, tracks_from_df(df with seg_id, seg) with computed or given "
+    "on numpy and dask input (one chunk, or 1-4 frames per chunk incl. a shorter last chunk, halved "
+    "spatial chunks), tracks_from_df(df with seg_id, seg as numpy / dask / zarr store path) with computed or given "
     "positions, and the builder with the segmentation given as a directory of per-frame TIFFs "
     "(9-13 frames, padded or unpadded numbers). Oracle: expected = zeros; expected[t][src[t]==seg_id] = node_id (+1 for all ids "
     "when 0 is an id); result == expected element-wise; graph nodes and edges shifted the same "
@@ -31,7 +32,7 @@ ASSUMPTIONS = ["seg ids are positive; every listed (time, seg id) occurs in the 
                "dtype of the relabelled array is unconstrained"]
 REQUIRED_CLASSES = {t: ["c13:id0", "c13:unlisted", "c13:collision", "c13:reused_label", "c13:identity",
                         "c13:ids_exceed_label_dtype", "c13:tiff_dir_unpadded_over_10_frames",
-                        "part:from_df"] for t in ("quick", "thorough")}
+                        "part:from_df", "c13:uneven_time_chunks", "c13:zarr_source"] for t in ("quick", "thorough")}
 
 POOL = [1, 2, 3, 4, 5, 6, 9, 200]
 
@@ -39,7 +40,7 @@ POOL = [1, 2, 3, 4, 5, 6, 9, 200]
 @st.composite
 def inputs(draw, with_df=False):
     spatial = draw(st.sampled_from([(5, 5), (4, 6), (3, 4, 4)]))
-    nt = draw(st.integers(1, 4))
+    nt = draw(st.integers(1, 4)) if draw(st.integers(0, 3)) else draw(st.integers(5, 7))
     frames = []
     dets = []
     for t in range(nt):
@@ -91,7 +92,10 @@ def inputs(draw, with_df=False):
         m.pop("children")
     out = {"spatial": list(spatial), "frames": frames, "nodes": nodes, "mode": mode,
            "dtype": draw(st.sampled_from(["int32", "uint16", "int64", "uint64", "uint8"])),
-           "dask": draw(st.booleans())}
+           "dask": draw(st.booleans()),
+           # chunking of a lazily loaded source: frames per chunk (0 = one chunk), spatial halves
+           "tchunk": draw(st.sampled_from([0, 0, 1, 2, 3, 4])), "schunk": draw(st.booleans()),
+           "zarr": draw(st.integers(0, 3)) == 0}
     if with_df:
         out["with_pos"] = draw(st.booleans())
         out["scale"] = draw(st.sampled_from([None, [1.0, 1.0, 1.0, 1.0][: len(spatial) + 1],
@@ -99,6 +103,12 @@ def inputs(draw, with_df=False):
         out["shuffle"] = draw(st.integers(0, 5))
         out["recompute_area"] = draw(st.booleans())
     return out
+
+
+def _chunks(inp, seg):
+    tc = inp.get("tchunk") or seg.shape[0]
+    sp = [max(1, (s + 1) // 2) if inp.get("schunk") else s for s in seg.shape[1:]]
+    return (min(tc, seg.shape[0]), *sp)
 
 
 def _build(inp):
@@ -176,7 +186,9 @@ def probe_relabel(inp) -> ProbeResult:
         if n["parent"] is not None:
             g.add_edge(n["parent"], n["id"])
     edges = {(u + off, v + off) for u, v in g.edges}
-    arr = da.from_array(seg, chunks=seg.shape) if inp["dask"] else seg
+    arr = da.from_array(seg, chunks=_chunks(inp, seg)) if inp["dask"] else seg
+    if inp["dask"] and inp.get("tchunk") and seg.shape[0] % inp["tchunk"]:
+        res.tags.append("c13:uneven_time_chunks")
     try:
         out = relabel_segmentation(arr, g, [n["id"] for n in inp["nodes"]],
                                    [n["seg_id"] for n in inp["nodes"]], [n["t"] for n in inp["nodes"]])
@@ -226,14 +238,38 @@ def probe_from_df(inp) -> ProbeResult:
     nm = {"time": "t", "id": "id", "parent_id": "parent_id", "seg_id": "seg_id"}
     if inp["with_pos"]:
         nm["pos"] = axes
+    source = seg
+    tmpd = None
+    if inp.get("dask"):
+        import dask.array as da
+
+        source = da.from_array(seg, chunks=_chunks(inp, seg))
+        if inp.get("zarr"):
+            # a zarr store on disk, opened lazily by the importer
+            import shutil
+            import tempfile
+            from pathlib import Path
+
+            import zarr
+
+            tmpd = Path(tempfile.mkdtemp(prefix="verif-c13-"))
+            z = zarr.open(str(tmpd / "seg.zarr"), mode="w", shape=seg.shape, dtype=seg.dtype, chunks=_chunks(inp, seg))
+            z[:] = seg
+            source = tmpd / "seg.zarr"
+            res.tags.append("c13:zarr_source")
+        if inp.get("tchunk") and seg.shape[0] % inp["tchunk"]:
+            res.tags.append("c13:uneven_time_chunks")
     try:
         with warnings.catch_warnings():
             warnings.simplefilter("ignore")
-            tracks = tracks_from_df(df, seg, scale=None if scale is None else list(scale), node_name_map=nm,
+            tracks = tracks_from_df(df, source, scale=None if scale is None else list(scale), node_name_map=nm,
                                     features={"Area": "Recompute"} if inp.get("recompute_area") else None)
     except Exception as e:  # noqa: BLE001
         res.fail(f"exception:{type(e).__name__}", f"tracks_from_df raised {e!r} (mode {inp['mode']})")
         return res
+    finally:
+        if tmpd is not None:
+            shutil.rmtree(tmpd, ignore_errors=True)
     got = tracks.segmentation
     d = _diff(got, exp) if np.asarray(got).shape == exp.shape else "shape changed"
     if d:
